@@ -28,18 +28,22 @@ def curated():
     SubF = S.StructDef([M("plain", I(1)), M("plain", I(2, 1))])               # fixed sub-struct
     SubD = S.StructDef([M("plain", I(1)), M("dyn", I(1))])                    # dynamic sub-struct
     U = S.UnionDef([{"d": 1, "t": I(2)}, {"d": 4, "t": R(2)}, {"d": 9, "t": R(1)}])
+    UU = S.UnionDef([{"d": 2, "t": I(1)}, {"d": 3, "t": R(3)}])                # an arm that is itself a union
     return [
         # scalars, enum, float, bytes
         [E, S.StructDef([M("plain", I(1)), M("plain", I(4, 1)), M("plain", R(1)), M("plain", S.Flt(4)),
                          M("fixed", S.BYTE, 2), M("lim", S.BYTE, 2), M("dyn", S.BYTE)])],
         # scalar arrays of every kind
-        [E, S.StructDef([M("fixed", I(1), 2), M("lim", I(2, 1), 2), M("dyn", I(1)), M("dyn", R(1))])],
+        [E, S.StructDef([M("fixed", I(1), 2), M("lim", I(2, 1), 2)])],
+        [E, S.StructDef([M("dyn", I(1)), M("dyn", R(1))])],
         # externally sized pair sharing a sizer + greedy
         [S.StructDef([M("plain", I(1)), M("ext", I(2), 0, 1), M("ext", I(1), 0, 1), M("greedy", I(1))])],
         # optionals
         [E, SubF, S.StructDef([M("opt", I(1)), M("opt", R(1)), M("opt", R(2)), M("plain", R(2))])],
         # union with scalar / struct / enum arms, nested in a struct, and in an array
         [E, SubF, U, S.StructDef([M("plain", R(3)), M("lim", R(3), 2)])],
+        # union nested in a union arm, in a dynamic array of unions, and as an optional
+        [E, SubF, U, UU, S.StructDef([M("plain", R(4)), M("dyn", R(4)), M("opt", R(3))])],
         # composite arrays (dynamic elements with their own array) + fixed composite array
         [E, SubF, SubD, S.StructDef([M("dyn", R(3)), M("lim", R(2), 2), M("fixed", R(2), 2)])],
     ]
@@ -339,6 +343,109 @@ def execute(env, root_t, mine, other, op):
 
 
 # ---------------------------------------------------------------------------
+# aliasing probe (C11 "any later mutation ... at any nesting depth")
+# ---------------------------------------------------------------------------
+def perturbations(env, obj, t, path="msg"):
+    """Yield (description, thunk) for single mutations reaching every nesting
+    depth of composite `obj` through the public API.  Thunks may raise; the
+    probe only looks at what happens to the OTHER message."""
+    b = env.base(t)
+    d = env.d(b["i"])
+    if d["k"] == "union":
+        disc = obj.discriminator
+        for a, arm in enumerate(d["arms"], 1):
+            if arm["d"] == disc:
+                name = env.aname(a)
+                for x in _perturb_field(env, obj, name, arm["t"], "%s.%s" % (path, name)):
+                    yield x
+        for a, arm in enumerate(d["arms"], 1):
+            if arm["d"] != disc:
+                yield ("%s.discriminator = %r" % (path, arm["d"]), lambda obj=obj, v=arm["d"]: setattr(obj, "discriminator", v))
+                break
+        return
+    for j, m in enumerate(d["ms"], 1):
+        name = env.fname(j)
+        p = "%s.%s" % (path, name)
+        f, t2 = m["f"], m["t"]
+        if f == "plain":
+            if env.is_sizer(d["ms"], j):
+                continue
+            for x in _perturb_field(env, obj, name, t2, p):
+                yield x
+        elif f == "opt":
+            cur = getattr(obj, name)
+            if cur is None:
+                if _composite(env, t2):
+                    yield (p + " = True", lambda obj=obj, name=name: setattr(obj, name, True))
+                else:
+                    yield (p + " = <value>", lambda obj=obj, name=name, t2=t2: setattr(obj, name, _other_value(env, t2, None)))
+            else:
+                for x in _perturb_field(env, obj, name, t2, p):
+                    yield x
+                yield (p + " = None", lambda obj=obj, name=name: setattr(obj, name, None))
+        elif t2["k"] == "byte":
+            yield (p + " = bytes", lambda obj=obj, name=name: setattr(obj, name, b"q"))
+        else:
+            arr = getattr(obj, name)
+            if _composite(env, t2):
+                for idx in range(len(arr)):
+                    for x in perturbations(env, arr[idx], t2, "%s[%d]" % (p, idx)):
+                        yield x
+                if f != "fixed":
+                    yield (p + ".add()", lambda arr=arr: arr.add())
+                    if len(arr):
+                        yield ("del %s[0]" % p, lambda arr=arr: arr.__delitem__(0))
+            else:
+                if len(arr):
+                    yield (p + "[0] = <value>", lambda arr=arr, t2=t2: arr.__setitem__(0, _other_value(env, t2, arr[0])))
+                if f != "fixed":
+                    yield (p + ".append(<value>)", lambda arr=arr, t2=t2: arr.append(_other_value(env, t2, None)))
+
+
+def _composite(env, t):
+    b = env.base(t)
+    return b["k"] == "ref" and env.d(b["i"])["k"] in ("struct", "union")
+
+
+def _other_value(env, t, cur):
+    b = env.base(t)
+    if b["k"] == "int":
+        return 1 if cur != 1 else 0
+    if b["k"] == "flt":
+        return 1.5 if cur != 1.5 else 0.0
+    vals = env.d(b["i"])["vals"]
+    return vals[0] if (cur is None or int(cur) != vals[0] or len(vals) == 1) else vals[1]
+
+
+def _perturb_field(env, obj, name, t, p):
+    if _composite(env, t):
+        for x in perturbations(env, getattr(obj, name), t, p):
+            yield x
+    else:
+        yield (p + " = <value>", lambda: setattr(obj, name, _other_value(env, t, getattr(obj, name))))
+
+
+def aliasing_probe(env, t, A, B):
+    """Mutate A everywhere (one mutation at a time); B must never change, and
+    vice versa.  Returns a description of the first leak or None."""
+    for src, dst, sn, dn in ((A, B, "a", "b"), (B, A, "b", "a")):
+        try:
+            before = key(project(env, dst, t))
+        except Exception:
+            return None
+        for _round in range(3):       # mutations may open new sub-trees (switched arms, enabled optionals)
+            for desc, thunk in list(perturbations(env, src, t, sn)):
+                try:
+                    thunk()
+                except Exception:
+                    continue
+                after = key(project(env, dst, t))
+                if after != before:
+                    return "after the copy, `%s` on message %s changed message %s: %s -> %s" % (desc, sn, dn, before, after)
+    return None
+
+
+# ---------------------------------------------------------------------------
 # worker
 # ---------------------------------------------------------------------------
 def key(x):
@@ -346,7 +453,9 @@ def key(x):
 
 
 def worker(gid, defs, edges, n_walks, walk_len, seed_, extra):
-    """edges: list of MTR records of this schema."""
+    """edges: list of MTR records of this schema.  extra["replay"] = (k, n):
+    this job replays every n-th graph node starting at k (all jobs hold the
+    whole graph; only job 0 does the history walks)."""
     res = {"fails": [], "n_edges": 0, "n_walk_steps": 0, "n_walks": 0, "samples": [], "nontrivial": 0,
            "diverged_allowed": 0}
     env = S.Env(defs, names=["M%d_T%d" % (gid, i + 1) for i in range(len(defs))])
@@ -403,7 +512,10 @@ def worker(gid, defs, edges, n_walks, walk_len, seed_, extra):
         return pa, pb
 
     # ---- transition leg
-    for (ak, bk), ops in graph.items():
+    part_k, part_n = extra.get("replay", (0, 1))
+    for ni, ((ak, bk), ops) in enumerate(graph.items()):
+        if ni % part_n != part_k:
+            continue
         av, bv = json.loads(ak), json.loads(bk)
         for (m, opk), allowed in ops.items():
             op = json.loads(opk)
@@ -415,6 +527,11 @@ def worker(gid, defs, edges, n_walks, walk_len, seed_, extra):
                      pre_a=av, pre_b=bv)
                 break
             r = step(A, B, av, bv, m, op, allowed, "api", None)
+            if r is not None and op["op"] in ("copy_from", "extendother", "extendself"):
+                res["n_probes"] = res.get("n_probes", 0) + 1
+                leak = aliasing_probe(env, t, A, B)
+                if leak:
+                    fail("api", "OTHER message not independent: " + leak, op=op, m=m, pre_a=av, pre_b=bv)
             if r is not None and any(o != "ok" for o, _ in allowed) and any(o == "ok" for o, _ in allowed):
                 res["diverged_allowed"] += 1
             if len(res["samples"]) < 2 and op["op"] in ("setslice", "disc", "extend") and r is not None:
